@@ -101,6 +101,21 @@ def write_via_open_fp(tab):
     os.unlink(path)
 
 
+def write_to_opened_file(tab, mode):
+  """tab.write(fp) into a real file the CALLER opened with `mode` ('ab': append mode - seekable() is true, yet every write
+  lands at the end whatever the position, seeded change C19r10; 'w+b' / 'wb' / 'w'); returns what the file holds."""
+  fd, path = tempfile.mkstemp(prefix="dest-", dir=os.environ.get("VERIF_TMP"))
+  os.close(fd)
+  try:
+    with open(path, mode) as fp:
+      tab.write(fp)
+    with open(path, "rb") as fp:
+      data = fp.read()
+    return data if "b" in mode else data.decode("utf8")
+  finally:
+    os.unlink(path)
+
+
 def write_tab(tab, fp=None):
   import zlib
   key = (tab.target, getattr(tab, "nr", 0), getattr(tab, "cutoff", 0))
